@@ -20,6 +20,7 @@ void Interpolation::applyInjection(const Level& fromLevel, const Level& toLevel,
 /* For loop matches circular access pattern */
 #pragma omp for nowait
         for (int i_r_coarse = 0; i_r_coarse < coarseGrid.numberSmootherCircles(); i_r_coarse++) {
+            VERIF_ITER(i_r_coarse);
             int i_r = i_r_coarse * 2;
             for (int i_theta_coarse = 0; i_theta_coarse < coarseGrid.ntheta(); i_theta_coarse++) {
                 int i_theta                                          = i_theta_coarse * 2;
@@ -30,6 +31,7 @@ void Interpolation::applyInjection(const Level& fromLevel, const Level& toLevel,
 /* For loop matches circular access pattern */
 #pragma omp for nowait
         for (int i_theta_coarse = 0; i_theta_coarse < coarseGrid.ntheta(); i_theta_coarse++) {
+            VERIF_ITER(i_theta_coarse);
             int i_theta = i_theta_coarse * 2;
             for (int i_r_coarse = coarseGrid.numberSmootherCircles(); i_r_coarse < coarseGrid.nr(); i_r_coarse++) {
                 int i_r                                              = i_r_coarse * 2;
